@@ -189,7 +189,7 @@ func (c *tcCtx) timeLeaf() *tcNode {
 		}
 	}
 	op := []string{"=", "<", "<=", ">", ">="}[rg.Intn(5)]
-	name := rg.Pick("time", "time", "time", "TIME", "Time", "tIME")
+	name := rg.Pick("time", "time", "time", "TIME", "Time", "tIME", "time", "time", "time", "TIME", "Time", "tIME", `"time"`, `"Time"`, "time::integer", `"time"::field`, "TIME::tag", "time::float", "Time::string")
 	n := &tcNode{op: "time", instant: inst}
 	if rg.P(0.6) {
 		n.text = name + " " + op + " " + lit
